@@ -1591,11 +1591,10 @@ class ArmiObject(metaclass=CompositeModelType):
             nuc: val * factor for nuc, val in self.getNumberDensities().items()
         }
         self.setNumberDensities(densitiesScaled)
-        # Update detailedNDens
-        if self.p.detailedNDens is not None:
+        # Update detailedNDens and pinNDens, where this level of the model defines them
+        if "detailedNDens" in self.p and self.p.detailedNDens is not None:
             self.p.detailedNDens *= factor
-        # Update pinNDens
-        if self.p.pinNDens is not None:
+        if "pinNDens" in self.p and self.p.pinNDens is not None:
             self.p.pinNDens *= factor
 
     def clearNumberDensities(self):
